@@ -767,6 +767,10 @@ def string_new(ex, args): return StrV([])
 def string_push(ex, args): as_str(args[0]).chars.append(args[1]); return UNIT
 
 
+@model(r'<(?:std::string::)?String as (?:std::ops::|core::ops::|ops::)?Add<&str>>::add')
+def string_add(ex, args): return StrV(list(as_str(args[0]).chars) + list(as_str(args[1]).chars))
+
+
 @model(r'(?:std::string::)?String::push_str')
 def string_push_str(ex, args): as_str(args[0]).chars.extend(as_str(args[1]).chars); return UNIT
 
@@ -1320,6 +1324,11 @@ def str_case(ex, args, m):
 
 @model(r'<(?:std::ops::)?Range<.*> as Clone>::clone|<(?:std::option::)?Option<.*> as Clone>::clone|<\(.*\) as Clone>::clone|<(?:std::result::)?Result<.*> as Clone>::clone')
 def lib_clone(ex, args): return clone_val(deref(args[0]))
+
+
+@model(r'<(?:std::vec::)?Vec<.*> as Clone>::clone_from|<(?:std::string::)?String as Clone>::clone_from')
+def lib_clone_from(ex, args):
+    args[0].set(clone_deep(ex, deref(args[1]))); return UNIT
 
 
 @model(r'<\[.*\] as ToOwned>::to_owned|(?:core::slice::|std::slice::|alloc::slice::)?<impl \[.*\]>::to_owned')
